@@ -138,7 +138,14 @@ impl CfgSpec {
     /// (riti reads the variable when the config is created and appends
     /// `/openbangla-keyboard`).
     pub fn build(&self, user_root: &Path) -> Config {
-        std::env::set_var("XDG_DATA_HOME", user_root);
+        if HOME_ENV.load(std::sync::atomic::Ordering::Relaxed) {
+            // the fallback of riti's user-directory rule: no XDG_DATA_HOME, $HOME/.local/share instead
+            // (`user_root` must then be <home>/.local/share)
+            std::env::remove_var("XDG_DATA_HOME");
+            std::env::set_var("HOME", user_root.parent().and_then(|p| p.parent()).expect("root of the form <home>/.local/share"));
+        } else {
+            std::env::set_var("XDG_DATA_HOME", user_root);
+        }
         unsafe {
             let p = riti_config_new();
             let l = CString::new(self.lay.path()).unwrap();
@@ -212,6 +219,9 @@ impl CfgSpec {
         }
     }
 }
+
+/// When set, configurations are built with XDG_DATA_HOME unset and HOME pointing two levels above the user root.
+pub static HOME_ENV: std::sync::atomic::AtomicBool = std::sync::atomic::AtomicBool::new(false);
 
 pub fn user_dir(root: &Path) -> PathBuf {
     root.join("openbangla-keyboard")
